@@ -29,6 +29,54 @@ def compile_ir(text, name="m.emb"):
     return ir, errors
 
 
+def canon(e):
+    """structure of an IR expression, ignoring annotations and source locations"""
+    w = e.which_expression
+    if w == "constant":
+        return ("const", int(e.constant.value))
+    if w == "boolean_constant":
+        return ("bool", bool(e.boolean_constant.value))
+    if w == "constant_reference":
+        return ("cref", tuple(e.constant_reference.canonical_name.object_path))
+    if w == "field_reference":
+        return ("ref", tuple(tuple(r.canonical_name.object_path) for r in e.field_reference.path))
+    if w == "builtin_reference":
+        return ("builtin", tuple(e.builtin_reference.canonical_name.object_path))
+    if w == "function":
+        return (e.function.function.name, tuple(canon(a) for a in e.function.args))
+    return ("?", w)
+
+
+def check_size_synthesis(ctx, ir, text):
+    """tie for theorem size_is_max_end: the $size_in_* virtual field the real desugar pass built is
+    $max(0, cond_i ? start_i + size_i : 0 ...) over the physical fields in source order."""
+    from compiler.util import ir_util
+    n = 0
+    for mod in ir.module:
+        if not mod.source_file_name:
+            continue
+        stack = list(mod.type)
+        while stack:
+            t = stack.pop()
+            stack.extend(t.subtype)
+            if not t.has_field("structure"):
+                continue
+            size_field = [f for f in t.structure.field if f.name.name.text in ("$size_in_bits", "$size_in_bytes")]
+            if len(size_field) != 1:
+                ctx.violation("size-synthesis", "structure without exactly one $size field", dict(kind="module", module=text), found_input=True)
+                continue
+            expected = ("MAXIMUM", (("const", 0),) + tuple(
+                ("CHOICE", (canon(f.existence_condition), ("ADDITION", (canon(f.location.start), canon(f.location.size))), ("const", 0)))
+                for f in t.structure.field if not ir_util.field_is_virtual(f)))
+            n += 1
+            if canon(size_field[0].read_transform) != expected:
+                ctx.violation("size-synthesis", "the synthesized %s of %s is not $max(0, cond ? start + size : 0, ...)"
+                              % (size_field[0].name.name.text, t.name.name.text),
+                              dict(kind="module", module=text, got=repr(canon(size_field[0].read_transform))[:1500],
+                                   expected=repr(expected)[:1500]), found_input=True)
+    return n
+
+
 def zlist(xs):
     return "[" + "; ".join(("(%d)" % x) if x < 0 else str(x) for x in xs) + "]"
 
@@ -40,11 +88,20 @@ def run(ctx):
                 "enough for at least the tag byte; distinct by (module text, buffer)")
     ctx.trusted = ["Coq 8.16.1 kernel, vm_compute", "harness/view_x.py (IR translator + C++ driver generator)", "harness/cpp_build.py", "g++ -std=c++14 -O0"]
     ctx.audit()
-    ctx.check_theorems("EmbossV.View.Properties_C01", "View/Properties_C01.v", expect_min=1)
+    ctx.check_theorems("EmbossV.View.Properties_C01", "View/Properties_C01.v", expect_min=10)
 
     n_mod = 150 if ctx.thorough() else 16
     n_buf = 60 if ctx.thorough() else 30
     jobs, infos = [], []
+    n_size_checked = 0
+    for p in sorted(glob.glob(os.path.join(fw.REPO, "testdata", "*.emb"))):
+        rel = os.path.relpath(p, fw.REPO)
+        try:
+            cir, cerrs = compile_ir(open(p).read(), rel)
+            if not cerrs:
+                n_size_checked += check_size_synthesis(ctx, cir, rel)
+        except Exception as ex:
+            ctx.note("corpus file %s: %r" % (rel, ex))
     for i in range(n_mod):
         gm = gen_view.ViewModule(ctx.rng)
         text = gm.text()
@@ -60,11 +117,18 @@ def run(ctx):
                 from compiler.util import error
                 ctx.note("rejected: " + error.format_errors(errors, {"m.emb": text}).split("\n")[0])
             continue
+        n_size_checked += check_size_synthesis(ctx, ir, text)
         try:
             tr = view_x.ViewTranslator(ir)
             mod_term = tr.module()
             top = [k for k, t in enumerate(tr.types) if t.name.name.text == "Top"][0]
             bufs = gen_view.buffers_for(ctx.rng, 80, n_buf)
+            # prefix pairs: every prefix is itself one of the compared buffers
+            prefix_pairs = []
+            for b in [x for x in bufs if len(x) >= 2][:8]:
+                k = ctx.rng.randrange(0, len(b))
+                prefix_pairs.append((b[:k], b[k:]))
+                bufs.append(b[:k])
             # the header is generated in this process from the very IR that was translated (a separate
             # embossc process numbers anonymous fields differently), and inlined into the driver
             from compiler.back_end.cpp import header_generator
@@ -77,7 +141,9 @@ def run(ctx):
             ctx.count("out-of-model:" + str(ex).split(" ")[0])
             continue
         jobs.append(cpp_build.CppJob("m%d" % i, None, driver))
-        infos.append(dict(i=i, text=text, mod=mod_term, top=top, bufs=bufs))
+        infos.append(dict(i=i, text=text, mod=mod_term, top=top, bufs=bufs, prefix_pairs=prefix_pairs))
+    ctx.obligation("tie for size_is_max_end: %d structures' synthesized $size fields have the modelled shape" % n_size_checked,
+                   n_size_checked > 0 and not any(v["key"] == "size-synthesis" for v in ctx.violations))
     results = cpp_build.run_jobs(os.path.join(ctx.bdir, "cpp"), jobs, parallel=fw.NPROC)
     cases = []
     mods = []
@@ -105,6 +171,16 @@ def run(ctx):
                 obs = obs[:50] + [-777]
             cases.append(("(%d%%nat, %s)" % (k, zlist(b)), zlist(obs), dict(module=info["text"], buffer=b, cpp=obs)))
             ctx.count("buflen:%s" % ("0" if not b else "1-4" if len(b) <= 4 else "5-16" if len(b) <= 16 else ">16"))
+    stable_cases = []
+    kk = 0
+    for info in infos:
+        res = results["m%d" % info["i"]]
+        if not res.ok:
+            continue
+        for (pre, rest) in info["prefix_pairs"]:
+            stable_cases.append(("(%d%%nat, (%s, %s))" % (kk, zlist(pre), zlist(rest)), "[1]",
+                                 dict(module=info["text"], prefix=pre, extension=rest)))
+        kk += 1
     hdr = HEADER + "Definition mods : list (module * nat * list (maybe value)) := [\n" + ";\n".join(mods) + "\n].\n"
     runner = fw.CoqCases(ctx, "views", hdr, "run_case mods", "zlist_eqb", "(nat * list Z)", "(list Z)", shard=60)
     bad = runner.run(cases) if cases else []
@@ -112,8 +188,22 @@ def run(ctx):
         ctx.case((obj["module"], tuple(obj["buffer"])), nontrivial=len(obj["buffer"]) > 0,
                  sample={"buffer": obj["buffer"], "observations": obj["cpp"][:40], "module_head": obj["module"][:200]})
     ctx.obligation("correspondence: %d (module, buffer) observation vectors agree with generated C++" % len(cases), not bad)
+    # prefix stability, decided on the model's result trees for buffers that are also in the
+    # correspondence set above (so a failure here is a statement about the generated C++ too)
+    runner2 = fw.CoqCases(ctx, "stable", hdr, "run_stable mods", "zlist_eqb", "(nat * (list Z * list Z))", "(list Z)", shard=60)
+    bad2 = runner2.run(stable_cases) if stable_cases else []
+    ctx.obligation("prefix stability holds on %d (module, prefix, extension) triples outside the refuted classes" % len(stable_cases),
+                   all(("[]" in stable_cases[i][2]["module"]) for i, _ in bad2))
+    for a, b, obj in stable_cases:
+        ctx.case(("stable", obj["module"], tuple(obj["prefix"]), tuple(obj["extension"])), nontrivial=len(obj["prefix"]) > 0)
+    for idx, out in bad2:
+        obj = stable_cases[idx][2]
+        cls = "array" if "[]" in obj["module"] else "other"
+        ctx.violation("prefix-instability:" + cls,
+                      "an observation known on a prefix of the message changes when more bytes arrive (%s)" % cls,
+                      dict(kind="view-prefix", module=obj["module"], prefix=obj["prefix"], extension=obj["extension"]), found_input=True)
     for idx, out in bad[:6]:
         a, b, obj = cases[idx]
         ctx.violation("view-correspondence", "model and generated C++ disagree on a buffer of length %d" % len(obj["buffer"]),
                       dict(kind="view", correspondence="View.Model.run_view vs generated C++ observations",
-                           module=obj["module"], buffer=obj["buffer"], cpp=obj["cpp"], model=out[:4000]), found_input=False)
+                           module=obj["module"], buffer=obj["buffer"], cpp=obj["cpp"], model=out[:4000]), found_input=True)
